@@ -29,7 +29,8 @@ from runtime.harness import Case
 from vlib.common import REPO
 
 G = {k: "c11." + k for k in ("varint", "width", "read_rle", "read_bitpacked", "read_bitpacked1", "write_bitpacked1",
-                              "hybrid", "delta", "encode_bitpacked", "byte_array", "read_plain", "bool_pack", "numpyio")}
+                              "hybrid", "delta", "encode_bitpacked", "byte_array", "read_plain", "bool_pack", "numpyio",
+                              "text_plain")}
 CONTRACT = "value / exact count / guard bytes / input cursor clauses against the plain-python specification (module docstring)"
 GUARD = 16
 GB = 0xA5
@@ -415,6 +416,63 @@ def c_bool_pack(p):
     return None
 
 
+# cells of the text / bytes PLAIN encoding cases: NUL characters at the end / start / middle, several trailing NULs,
+# only NULs, empty cells, leading / trailing blanks, non-ASCII next to NULs
+TEXT_POOLS = {
+    'nul_end': ["ab\x00", "ab", "tail\x00\x00", "\x00", "\x00\x00\x00", "é\x00", "x \x00"],
+    'nul_start_mid': ["\x00lead", "mid\x00dle", "\x00\x00ab", "a\x00b\x00c", "中\x00文"],
+    'empty_blank': ["", " ", "trail ", " lead", "  ", "", "a"],
+    'mixed': ["ab\x00", "", "\x00lead", "trail ", "mid\x00dle", "tail\x00\x00", "plain", "é€\U0001d11e", "\x00", " "],
+    'plain': ["plain", "text", "é€", "zebra"],
+}
+
+
+def text_cells(p):
+    pool = TEXT_POOLS[p['cells']]
+    return [pool[(k * 3 + k // len(pool)) % len(pool)] for k in range(p['count'])]
+
+
+def c_text_plain(p):
+    """writer.convert / writer.encode_plain on a text (str / string / object dtype), bytes or string-labelled
+    categorical-dictionary column: bytes == concat(le32(len(utf8(cell))) ++ utf8(cell)) and decoding gives the
+    cells back (every cell, with its NUL characters and blanks)."""
+    E = env()
+    np = E.np
+    import pandas as pd
+    import fastparquet.writer as wr
+    cells = text_cells(p)
+    kind = p['dtype']
+    if kind == 'bytes':
+        s = pd.Series([c.encode('utf8') for c in cells], dtype=object)
+    elif kind == 'cat_labels':
+        # what write_column encodes as the dictionary page of a categorical column: its categories as a Series
+        labels = list(dict.fromkeys(cells))
+        s = pd.Series(pd.Categorical(labels, categories=labels).categories)
+        cells = labels
+    else:
+        s = pd.Series(cells, dtype={'object': object}.get(kind, kind))
+    s.name = 'x'
+    se, _ = wr.find_type(s, object_encoding='bytes' if kind == 'bytes' else ('utf8' if s.dtype == object else None))
+    items = [c.encode('utf8') for c in cells]
+    want = b''.join(struct.pack('<I', len(b)) + b for b in items)
+    conv = list(wr.convert(s, se))
+    if [bytes(x) for x in conv] != items:
+        k = next((i for i, (a, b) in enumerate(zip(conv, items)) if bytes(a) != b), min(len(conv), len(items)))
+        return "writer.convert: element %d is %r, the cell's UTF-8 bytes are %r" % (
+            k, conv[k] if k < len(conv) else None, items[k] if k < len(items) else None)
+    got = bytes(wr.encode_plain(s, se))
+    if got != want:
+        return "writer.encode_plain emits %d bytes %s.., concat(le32(len) ++ utf8(cell)) is %d bytes %s.." % (
+            len(got), got[:24].hex(), len(want), want[:24].hex())
+    if p['count']:
+        raw = np.frombuffer(got, dtype=np.uint8)
+        back = E.en.read_plain(raw, E.W.PTYPES.index('BYTE_ARRAY'), len(cells), utf=kind != 'bytes')
+        exp = items if kind == 'bytes' else cells
+        if [bytes(x) if kind == 'bytes' else x for x in back] != exp:
+            return "read_plain(encode_plain(cells)) != cells: %r vs %r" % (list(back)[:4], exp[:4])
+    return None
+
+
 def c_numpyio(p):
     E = env()
     np = E.np
@@ -480,7 +538,7 @@ def c_numpyio(p):
 CHECKERS = {'varint': c_varint, 'width': c_width, 'read_rle': c_read_rle, 'read_bitpacked': c_read_bitpacked,
             'read_bitpacked1': c_read_bitpacked1, 'write_bitpacked1': c_write_bitpacked1, 'hybrid': c_hybrid,
             'delta': c_delta, 'encode_bitpacked': c_encode_bitpacked, 'byte_array': c_byte_array,
-            'read_plain': c_read_plain, 'bool_pack': c_bool_pack, 'numpyio': c_numpyio}
+            'read_plain': c_read_plain, 'bool_pack': c_bool_pack, 'numpyio': c_numpyio, 'text_plain': c_text_plain}
 
 
 def risky(g, p):
@@ -609,6 +667,11 @@ def enumerate_cases(tier):
             add('read_plain', ptype='BOOLEAN', count=n, pattern=pattern, via='read_plain_boolean')
             add('bool_pack', fn='convert', count=n, pattern=pattern)
             add('bool_pack', fn='encode_plain', count=n, pattern=pattern)
+    # PLAIN encoding of text / bytes columns and of string category labels
+    for dt in ('str', 'string', 'object', 'bytes', 'cat_labels'):
+        for cells in TEXT_POOLS:
+            for n in (0, 1, 2, 3, 7, 8, 50):
+                add('text_plain', fn='encode_plain', dtype=dt, cells=cells, count=n)
     # NumpyIO cursor algebra
     for loc in (0, 1, 16, 17, 19, 20):
         for x in (-1, 0, 1, 3, 4):
@@ -723,6 +786,7 @@ RULES = {
     'byte_array': "pack_byte_array / unpack_byte_array / array_encode_utf8: counts 0,1,2,3,8,50 x length mixes x bytes/utf8 x items requested n, n-1, 0, 1",
     'read_plain': "encoding.read_plain for the 8 physical types (counts 0,1,2,3,8,100) and booleans for every count 0..130 x 4 patterns via read_plain and read_plain_boolean",
     'bool_pack': "writer.convert / writer.encode_plain boolean packing: every count 0..130 x 4 patterns == LSB-first bit packing (one trailing zero byte tolerated) and read_plain_boolean gives the input back",
+    'text_plain': "writer.convert / writer.encode_plain on text columns of dtype str / string / object, bytes columns and the label Series of a string categorical: 5 cell pools (NUL characters at the end - one, several, only NULs -, at the start / in the middle, empty cells and leading / trailing blanks, a mixture with non-ASCII, plain text) x counts 0,1,2,3,7,8,50: every converted element == the cell's UTF-8 bytes, emitted bytes == concat(le32(len) ++ utf8(cell)), read_plain gives the cells back",
     'numpyio': "NumpyIO cursor algebra: read (x = -1,0,1,3,4 at 6 positions), read_int, read_byte, seek (3 whences), write_byte / write_int at every position of capacities 0,1,3,4,8 with guard bytes, write (forked child)",
 }
 
